@@ -200,9 +200,9 @@ func main() {
 	if t := os.Getenv("VERIF_TIER"); t != "" && *tier == "quick" {
 		*tier = t
 	}
-	opt := Options{TimeoutMS: 10000, Workers: runtime.NumCPU(), KeepDir: *keep, Thorough: *tier == "thorough"}
+	opt := Options{TimeoutMS: 20000, Workers: runtime.NumCPU(), KeepDir: *keep, Thorough: *tier == "thorough"}
 	if opt.Thorough {
-		opt.TimeoutMS = 60000
+		opt.TimeoutMS = 90000
 	}
 	if *timeout > 0 {
 		opt.TimeoutMS = *timeout
